@@ -199,13 +199,13 @@ let e2e_case (cfg : (string * string) list) (ops : string list) : unit =
         now := !now + int_of_string (kv t "ms");
         a.slots <- lpf_remove_expired (zi !now) a.slots;
         b.slots <- lpf_remove_expired (zi !now) b.slots
-    | ("udp" | "burst" | "echo") :: _ ->
-        let sched = if List.hd t = "burst" then "io" else kv t "sched" in
+    | ("udp" | "burst" | "echo" | "tcp") :: _ ->
+        let sched = if List.hd t = "burst" || List.hd t = "tcp" then "io" else kv t "sched" in
         let got = send "ab" a b (if mcast then bcast else llb) (split_refs (kv t "ref")) sched in
         let rr = split_refs (kv t "rref") in
-        (* the receiver only answers what it received *)
-        if rr <> [] && got > 0 then ignore (send "ba" b a lla rr "io");
-        now := !now + 1
+        (* the receiver only answers what it received (a TCP peer may also speak on its own: delayed ACK, FIN) *)
+        if rr <> [] && (got > 0 || List.hd t = "tcp") then ignore (send "ba" b a lla rr "io");
+        now := !now + (if List.hd t = "tcp" then 50 else 1)
     | "recv" :: _ ->
         let ll_dst = if kv t "bc" = "1" then bcast else llb in
         b.slots <- lpf_remove_expired (zi !now) b.slots;
